@@ -24,8 +24,35 @@ class Execution:
         self.deadlock = False
 
 
+_ACTIVE = {}          # thread ident -> (run, tid) for instruction-granular runs
+_MON = {"on": False}
+
+
+def _instr_cb(code, offset):
+    ent = _ACTIVE.get(threading.get_ident())
+    if ent is None:
+        return None
+    run, tid = ent
+    if code.co_filename not in run.watched:
+        return sys.monitoring.DISABLE
+    run.point(tid, (os.path.basename(code.co_filename), code.co_name, offset))
+    return None
+
+
+def _monitoring_on():
+    if not _MON["on"]:
+        m = sys.monitoring
+        m.use_tool_id(m.PROFILER_ID, "vf-sched")
+        m.register_callback(m.PROFILER_ID, m.events.INSTRUCTION, _instr_cb)
+        m.set_events(m.PROFILER_ID, m.events.INSTRUCTION)
+        _MON["on"] = True
+    else:
+        sys.monitoring.restart_events()
+
+
 class _Run:
-    def __init__(self, bodies, watched, prefix, max_points):
+    def __init__(self, bodies, watched, prefix, max_points, instr=False):
+        self.instr = instr
         self.bodies, self.watched, self.prefix, self.max_points = bodies, watched, list(prefix), max_points
         self.n = len(bodies)
         self.sems = [threading.Semaphore(0) for _ in bodies]
@@ -80,13 +107,19 @@ class _Run:
             return None
 
         try:
-            sys.settrace(glob)
+            if self.instr:
+                _ACTIVE[threading.get_ident()] = (self, tid)
+            else:
+                sys.settrace(glob)
             try:
                 res = ("ok", self.bodies[tid]())
             except BaseException as e:
                 res = ("exc", "%s: %s" % (type(e).__name__, str(e)[:200]))
         finally:
-            sys.settrace(None)
+            if self.instr:
+                _ACTIVE.pop(threading.get_ident(), None)
+            else:
+                sys.settrace(None)
         self.x.results[tid] = res
         self.finished[tid] = True
         nxt = self.decide(tid, False, ("<finished>", tid))
@@ -97,6 +130,8 @@ class _Run:
             self.sems[nxt].release()
 
     def go(self):
+        if self.instr:
+            _monitoring_on()
         threads = [threading.Thread(target=self.thread_main, args=(t,), daemon=True) for t in range(self.n)]
         for t in threads:
             t.start()
@@ -133,10 +168,11 @@ def all_package_files():
     return [f for f in os.listdir(d) if f.endswith(".py") and f not in ("__main__.py",)]
 
 
-def run_schedule(make_bodies, watched, prefix, max_points=200000):
-    """make_bodies() builds fresh shared objects and returns (bodies, finalize) ; finalize(results) -> observation"""
+def run_schedule(make_bodies, watched, prefix, max_points=400000, instr=False):
+    """make_bodies() builds fresh shared objects and returns (bodies, finalize) ; finalize(results) -> observation.
+    instr=True: scheduling points are bytecode INSTRUCTION events (sys.monitoring) in the watched files instead of lines."""
     bodies, finalize = make_bodies()
-    r = _Run(bodies, watched, prefix, max_points)
+    r = _Run(bodies, watched, prefix, max_points, instr)
     x = r.go()
     x.observation = finalize(x.results)
     return x
@@ -165,7 +201,7 @@ def branches(x, start, bound):
     return out
 
 
-def explore(make_bodies, watched, bound, check, prefix=(), stats=None, max_execs=None):
+def explore(make_bodies, watched, bound, check, prefix=(), stats=None, max_execs=None, instr=False):
     """depth-first exploration below `prefix`; check(x) -> list of violations. Returns (executions, violations)."""
     if stats is None:
         stats = {"executions": 0, "points_max": 0, "outcomes": {}, "violations": []}
@@ -175,7 +211,7 @@ def explore(make_bodies, watched, bound, check, prefix=(), stats=None, max_execs
         if max_execs is not None and stats["executions"] >= max_execs:
             stats["capped"] = True
             break
-        x = run_schedule(make_bodies, watched, pre)
+        x = run_schedule(make_bodies, watched, pre, instr=instr)
         stats["executions"] += 1
         stats["points_max"] = max(stats["points_max"], len(x.points))
         choices = [p[2] for p in x.points]
